@@ -907,8 +907,13 @@ func (in *inst) loopWrites(l *loopInfo) (keys map[string]*writeShape, anything b
 						}
 					case *ssa.Function:
 						if ct := fv.eng.contracts[fn]; ct != nil && !ct.Synth {
-							if ct.AssignsAny || len(ct.Assigns) > 0 {
-								anything = true // TODO: refine by assigns types
+							if ct.AssignsAny {
+								anything = true
+							} else if len(ct.Assigns) > 0 {
+								// heap keys of the callee's declared frame (evaluated on dummy arguments)
+								for k, srt := range in.assignsKeys(ct, fn) {
+									get(k, srt).total = true
+								}
 							}
 						} else if ct := fv.eng.externals[fn.String()]; ct != nil {
 							if ct.AssignsAny || len(ct.Assigns) > 0 {
@@ -938,7 +943,9 @@ func (in *inst) loopWrites(l *loopInfo) (keys map[string]*writeShape, anything b
 
 // headerEnv builds the variable environment for loop clauses at header l.
 func (in *inst) headerEnv(n *vnode, l *loopInfo, phiVals map[*ssa.Phi]Val, st *State) *cenv {
+	in.at = l.header
 	ce := in.baseEnv(st)
+	in.at = nil
 	for _, ins := range l.header.Instrs {
 		phi, ok := ins.(*ssa.Phi)
 		if !ok {
@@ -989,10 +996,19 @@ func (in *inst) baseEnv(st *State) *cenv {
 		}
 	}
 	for name, vs := range in.names {
-		if len(vs) == 1 {
-			if v, ok := in.vals[vs[0]]; ok {
+		// a source name may be bound in several scopes (e.g. per type-switch
+		// arm): only values whose definition dominates the evaluation point count
+		var cand []ssa.Value
+		for _, v := range vs {
+			if ins, ok := v.(ssa.Instruction); ok && in.at != nil && ins.Block() != in.at && !ins.Block().Dominates(in.at) {
+				continue
+			}
+			cand = append(cand, v)
+		}
+		if len(cand) == 1 {
+			if v, ok := in.vals[cand[0]]; ok {
 				ce.vars[name] = v
-			} else if c, ok := vs[0].(*ssa.Const); ok {
+			} else if c, ok := cand[0].(*ssa.Const); ok {
 				ce.vars[name] = fv.constVal(c)
 			}
 		}
@@ -1027,14 +1043,25 @@ func (in *inst) headerPhis(l *loopInfo) []*ssa.Phi {
 
 // loopRegion: which locations of heap key k a loop may modify: objects
 // allocated since function entry, or inside the function's declared frame.
-func (in *inst) loopRegion(key string) func(string) string {
+func (in *inst) loopRegion(key string, lp *loopInfo) func(string) string {
 	fv := in.fv
 	var fr *region
 	if fv.frame != nil {
 		fr = fv.frame[key]
 	}
+	// a loop-level assigns clause replaces the function frame for this loop
+	var lfr map[string]*region
+	if lp != nil && in.loopFrames != nil {
+		lfr = in.loopFrames[lp]
+	}
 	return func(l string) string {
 		fresh := "(>= (root " + l + ") " + fv.allocEntry + ")"
+		if lfr != nil {
+			if r := lfr[key]; r != nil {
+				return or(fresh, r.pred(l))
+			}
+			return fresh
+		}
 		if fv.frameAny {
 			return "true"
 		}
@@ -1068,6 +1095,19 @@ func (in *inst) cutHeader(n *vnode, l *loopInfo, edges []*vedge, conds []string)
 	if ce.err != nil {
 		fv.specErr(ce.err)
 	}
+	if t, ok := in.autoRangeInv(n, l, pin); ok {
+		fv.oblige(fmt.Sprintf("%s#inv-init:auto_rangeindex@loop%d", funcKey(in.fn), l.ord), "inv-init", in.propsFor(nil), st.reach, t, "range index within bounds (generated)", l.header.Instrs[0].Pos())
+	}
+	// loop-level frame
+	if ls.AssignsSet {
+		if in.loopFrames == nil {
+			in.loopFrames = map[*loopInfo]map[string]*region{}
+		}
+		in.loopFrames[l] = ce.regions(ls.Assigns)
+		if ce.err != nil {
+			fv.specErr(ce.err)
+		}
+	}
 	// havoc
 	pre := st.clone()
 	keys, anything := in.loopWrites(l)
@@ -1087,7 +1127,7 @@ func (in *inst) cutHeader(n *vnode, l *loopInfo, edges []*vedge, conds []string)
 	} else {
 		for _, k := range ks {
 			w := keys[k]
-			lr := in.loopRegion(k)
+			lr := in.loopRegion(k, l)
 			fv.havocHeap(st, k, w.sort, func(l string) string { return and(w.pred(l), lr(l)) }, nil)
 		}
 		a := fv.decl("alloc", "Int")
@@ -1100,6 +1140,9 @@ func (in *inst) cutHeader(n *vnode, l *loopInfo, edges []*vedge, conds []string)
 		v := fv.unknown(st, phi.Type(), "lp")
 		pnew[phi] = v
 		in.setVal(n, phi, v)
+	}
+	if t, ok := in.autoRangeInv(n, l, pnew); ok {
+		fv.assume(st.reach, t)
 	}
 	ce2 := in.headerEnv(n, l, pnew, st)
 	for _, iv := range ls.Invariants {
@@ -1159,6 +1202,9 @@ func (in *inst) invStep(n *vnode, edges []*vedge, conds []string) {
 			}
 		}
 	}
+	if t, ok := in.autoRangeInv(n, l, pv); ok {
+		fv.oblige(fmt.Sprintf("%s#inv-step:auto_rangeindex@loop%d%s", funcKey(in.fn), l.ord, esfx), "inv-step", in.propsFor(nil), st.reach, t, "range index within bounds (generated)", pos)
+	}
 	for _, iv := range ls.Invariants {
 		t := ce.evalGoal(iv.Expr)
 		fv.oblige(fmt.Sprintf("%s#inv-step:%s@loop%d%s", funcKey(in.fn), iv.Name, l.ord, esfx), "inv-step", in.propsFor(iv), st.reach, t, iv.Expr, pos)
@@ -1188,7 +1234,7 @@ func (in *inst) invStep(n *vnode, edges []*vedge, conds []string) {
 			}
 			sk := fv.decl("fl", "Loc")
 			// locations allocated since the header are outside the claim
-			goal := implies(and("(< (root "+sk+") "+snap.st.alloc+")", not(and(w.pred(sk), in.loopRegion(k)(sk)))), eq(fv.loadRaw(hNow, sk), fv.loadRaw(hHdr, sk)))
+			goal := implies(and("(< (root "+sk+") "+snap.st.alloc+")", not(and(w.pred(sk), in.loopRegion(k, l)(sk)))), eq(fv.loadRaw(hNow, sk), fv.loadRaw(hHdr, sk)))
 			fv.oblige(fmt.Sprintf("%s#loopframe:%s@loop%d%s", funcKey(in.fn), sanitize(k), l.ord, esfx), "frame", in.propsFor(nil), st.reach, goal,
 				"loop writes only fresh objects or the function's frame ("+k+")", pos)
 		}
@@ -1221,4 +1267,64 @@ func (in *inst) backEdgeOrd(l *loopInfo, b *ssa.BasicBlock) int {
 		}
 	}
 	return -1
+}
+
+// assignsKeys: which heaps a callee's assigns clause can touch. The clause is
+// evaluated on unconstrained dummy arguments; only the heap keys are used.
+func (in *inst) assignsKeys(ct *Contract, fn *ssa.Function) map[string]string {
+	fv := in.fv
+	out := map[string]string{}
+	st := &State{reach: "false", heaps: map[string]*Heap{}, alloc: fv.allocEntry}
+	save := fv.curTag
+	fv.curTag = -1
+	env := map[string]Val{}
+	for _, p := range fn.Params {
+		env[p.Name()] = fv.unknown(nil, p.Type(), "dummy")
+	}
+	ce := &cenv{fv: fv, vars: env, st: st, old: st, pkg: funcPkg(fn), allocOld: fv.allocEntry, where: "assigns of " + funcKey(fn)}
+	for k, r := range ce.regions(ct.Assigns) {
+		out[k] = r.sort
+	}
+	fv.curTag = save
+	return out
+}
+
+// autoRangeInv: for compiler-generated "rangeindex" loops (for i, x := range s)
+// the hidden index stays within [-1, len-1]; the fact is proved like any
+// other invariant (init + step obligations), so it is not an assumption.
+func (in *inst) autoRangeInv(n *vnode, l *loopInfo, phiVals map[*ssa.Phi]Val) (string, bool) {
+	var parts []string
+	for _, phi := range in.headerPhis(l) {
+		if phi.Comment != "rangeindex" {
+			continue
+		}
+		pv, ok := phiVals[phi]
+		if !ok || pv.K != KBV || pv.W != 64 {
+			continue
+		}
+		// t5 = phi + 1 ; t6 = t5 < bound
+		for _, ins := range l.header.Instrs {
+			b, ok := ins.(*ssa.BinOp)
+			if !ok || b.Op != token.LSS {
+				continue
+			}
+			add, ok := b.X.(*ssa.BinOp)
+			if !ok || add.Op != token.ADD || add.X != ssa.Value(phi) {
+				continue
+			}
+			bound, ok := in.vals[b.Y]
+			if !ok {
+				if c, isC := b.Y.(*ssa.Const); isC {
+					bound = in.fv.constVal(c)
+				} else {
+					continue
+				}
+			}
+			parts = append(parts, and("(bvsle #xffffffffffffffff "+pv.T+")", "(bvsle "+pv.T+" (bvsub "+bound.T+" #x0000000000000001))"))
+		}
+	}
+	if len(parts) == 0 {
+		return "", false
+	}
+	return and(parts...), true
 }
